@@ -298,8 +298,14 @@ func c10Run(c *verifeng.Chooser, depth, nreq int) {
 		return false
 	}
 
+	// the order inside a burst as a further dimension (DESIGN 3.7)
+	var burst *verifbubble.Burst
+	if vfxInBurst {
+		burst = verifbubble.NewBurst(c)
+	}
 	for d := 0; d < depth && !c.Failed(); d++ {
 		verifbubble.Wait()
+		burst.End()
 		if sig, detail := verifbubble.LockOrder(); sig != "" {
 			c.Fail("C10", "lock-order-inversion:"+sig, "%s", detail)
 			return
@@ -370,12 +376,15 @@ func c10Run(c *verifeng.Chooser, depth, nreq int) {
 			break
 		}
 		e := menu[c.ChooseFree(len(menu), "event")]
-		c.Step("%s", e.name)
+		c.Step("%s%s", e.name, burst.Begin())
 		e.run()
 	}
 	if c.Failed() {
 		return
 	}
+	verifbubble.Wait()
+	burst.End()
+	burst.Off()
 	// ---- wind down: let the scan run to completion, then stop; every
 	// caller must have returned.
 	for i := 0; i < 60; i++ {
@@ -476,6 +485,7 @@ func TestVFXC10(t *testing.T) {
 			t.Fatal(err)
 		}
 		fmt.Sscanf(v.Config, "depth=%d requests=%d", &depth, &nreq)
+		vfxInBurst = strings.Contains(v.Config, "in-burst")
 		e := verifeng.FromEnv(v.Harness, v.Config)
 		_, x, err := e.ReplayFile(rp, c10Body(t, depth, nreq))
 		if err != nil {
@@ -492,6 +502,17 @@ func TestVFXC10(t *testing.T) {
 	e.ShardDepth = 2
 	e.MaxViol = 12
 	e.Run(c10Body(t, depth, nreq))
+	if err := verifeng.AppendResult(&e.Res); err != nil {
+		t.Fatal(err)
+	}
+	// second configuration: at most one in-burst deviation per execution
+	vfxInBurst = true
+	e = verifeng.FromEnv("C10-utxoscanner", fmt.Sprintf("depth=%d requests=%d pool=%d in-burst deviations<=1", depth-2, nreq, len(c10pool)))
+	e.ShardDepth = 2
+	e.MaxViol = 12
+	e.MaxDev = 1
+	e.Run(c10Body(t, depth-2, nreq))
+	vfxInBurst = false
 	if err := verifeng.AppendResult(&e.Res); err != nil {
 		t.Fatal(err)
 	}
